@@ -248,6 +248,27 @@ Record sst := {
   s_out : list Z;          (* reversed *)
   s_trace : list Z }.      (* reversed slice headers, for coverage measurement only *)
 
+(* if (new_palette) { DIROFS 5, PALSIZE 5 (+1 if >0), PALBITS 3 (+2), palsize x PALETTE palbits }
+   else the palette state of the previous slice stays *)
+Definition read_hdr_pal (size : Z) (s : sst) (newpal : Z) (r5 : reader)
+  : option (Z * Z * Z * list Z * reader) :=
+    if newpal =? 0 then Some (s_dofs s, s_palsize s, s_palbits s, s_palette s, r5)
+    else match get size 5 r5 with
+         | None => None
+         | Some (dofs, r6) =>
+         match get size 5 r6 with
+         | None => None
+         | Some (ps, r7) =>
+         let palsize := if 0 <? ps then ps + 1 else ps in
+         match get size 3 r7 with
+         | None => None
+         | Some (pb, r8) =>
+         let palbits := pb + 2 in
+         match read_palette size palbits (Z.to_nat palsize) r8 with
+         | None => None
+         | Some (pal, r9) => Some (dofs, palsize, palbits, pal, r9)
+         end end end end.
+
 (* while(z_grc_div==ZDIV_EOS) { byte align; first=1; if at end break; z_grc_div = get 3 } *)
 Definition eos_step (size : Z) (s : reader * Z * bool) : (reader * Z * bool) + option (reader * Z * bool) :=
   let '(r, z, first) := s in
@@ -275,7 +296,7 @@ Definition slice_step (strict : bool) (size : Z) (k : nat) (s : sst) : sst + (dr
   | inl _ => inr (DFuel, tr)
   | inr None => inr (DUnderrun, tr)
   | inr (Some (r1, z, first)) =>
-  if r_pos r1 / 8 =? size then inr (DOk (rev (s_out s)), tr)
+  if r_pos r1 / 8 =? size then inr (DOk (rev' (s_out s)), tr)
   else if strict && negb ((z <? 4) || (z =? 6)) then inr (DAssert 1, tr)
   else
   let use_zero_run := negb (z =? 6) in
@@ -287,24 +308,7 @@ Definition slice_step (strict : bool) (size : Z) (k : nat) (s : sst) : sst + (dr
   if strict && first && (newpal =? 0) then inr (DAssert 2, tr)
   else if strict && (newpal =? 0) && negb (Bool.eqb use_zero_run (negb (s_zprev s =? 6))) then inr (DAssert 3, tr)
   else
-  let hdr_pal :=
-    if newpal =? 0 then Some (s_dofs s, s_palsize s, s_palbits s, s_palette s, r5)
-    else match get size 5 r5 with
-         | None => None
-         | Some (dofs, r6) =>
-         match get size 5 r6 with
-         | None => None
-         | Some (ps, r7) =>
-         let palsize := if 0 <? ps then ps + 1 else ps in
-         match get size 3 r7 with
-         | None => None
-         | Some (pb, r8) =>
-         let palbits := pb + 2 in
-         match read_palette size palbits (Z.to_nat palsize) r8 with
-         | None => None
-         | Some (pal, r9) => Some (dofs, palsize, palbits, pal, r9)
-         end end end end in
-  match hdr_pal with
+  match read_hdr_pal size s newpal r5 with
   | None => inr (DUnderrun, tr)
   | Some (dofs, palsize, palbits, pal, r9) =>
   let w_unc := wdiv =? 7 in
@@ -322,8 +326,8 @@ Definition slice_step (strict : bool) (size : Z) (k : nat) (s : sst) : sst + (dr
   | inl _ => inr (DFuel, tr')
   | inr None => inr (DUnderrun, tr')
   | inr (Some c) =>
-      let wv := rev (c_wvals c) in
-      let zv := rev (c_zvals c) in
+      let wv := rev' (c_wvals c) in
+      let zv := rev' (c_zvals c) in
       let out0 := if negb (newpal =? 0) && use_zero_run then zeros (Z.to_nat (hd 0 zv)) (s_out s) else s_out s in
       let zv' := if newpal =? 0 then zv else tl zv in
       match emit strict use_zero_run palsize dofs pal wv zv' out0 with
@@ -342,7 +346,7 @@ Definition decode_fuel (k : nat) (strict : bool) (buf : list Z) : dres * list Z 
                s_palbits := 0; s_dofs := 0; s_palette := []; s_out := []; s_trace := [] |} in
   match iter2 (slice_step strict size k) k s0 with
   | inl _ => (DFuel, [])
-  | inr (d, tr) => (d, rev tr)
+  | inr (d, tr) => (d, rev' tr)
   end.
 
 (* enough for every loop: each continuing iteration consumes a bit or moves w_pos towards nvalues <= 32768 *)
